@@ -6,6 +6,8 @@ import (
 	"os"
 	"sort"
 	"strings"
+
+	"golang.org/x/tools/go/ssa"
 )
 
 func usage() {
@@ -58,6 +60,8 @@ func main() {
 			code = cmdLoops(cfg, *fnFilter)
 		case "funcs":
 			code = cmdFuncs(cfg, *fnFilter)
+		case "frames":
+			code = cmdFrames(cfg)
 		default:
 			usage()
 		}
@@ -253,6 +257,68 @@ func cmdFuncs(cfg Config, filter string) int {
 	for _, k := range keys {
 		fn := p.funcs[k]
 		fmt.Printf("%-60s %s %s\n", k, p.posString(fn.Pos()), strings.TrimSpace(p.sourceLine(fn.Pos())))
+	}
+	return 0
+}
+
+// cmdFrames lists the functions under contract that have no `assigns` clause although another function
+// under contract calls them by contract (the caller then assumes that they assign nothing).
+func cmdFrames(cfg Config) int {
+	p, err := loadProgram(cfg.Repo, cfg.Specs)
+	if err != nil {
+		fmt.Fprintln(os.Stderr, "load:", err)
+		return 2
+	}
+	callers := map[string][]string{}
+	var scan func(root string, f *ssa.Function, depth int)
+	scan = func(root string, f *ssa.Function, depth int) {
+		if f == nil || depth > 6 {
+			return
+		}
+		for _, b := range f.Blocks {
+			for _, in := range b.Instrs {
+				c, ok := in.(ssa.CallInstruction)
+				if !ok {
+					continue
+				}
+				callee := c.Common().StaticCallee()
+				if callee == nil {
+					continue
+				}
+				k := funcKey(callee)
+				cc := p.cs.Funcs[k]
+				if cc == nil || cc.Inline {
+					if cc == nil && len(callee.Blocks) > 0 && callee.Pkg != nil && strings.HasPrefix(callee.Pkg.Pkg.Path(), modulePrefix) {
+						scan(root, callee, depth+1)
+					}
+					continue
+				}
+				callers[k] = append(callers[k], root)
+			}
+		}
+		for _, af := range f.AnonFuncs {
+			if c := p.cs.Funcs[funcKey(af)]; c == nil || c.Inline {
+				scan(root, af, depth+1)
+			}
+		}
+	}
+	for k, c := range p.cs.Funcs {
+		if c.Kind != "func" || c.Inline || c.Trusted != "" {
+			continue
+		}
+		scan(k, p.funcs[k], 0)
+	}
+	var keys []string
+	for k := range callers {
+		keys = append(keys, k)
+	}
+	sort.Strings(keys)
+	for _, k := range keys {
+		c := p.cs.Funcs[k]
+		if c.Kind != "func" || c.HasAssigns || c.Pure {
+			continue
+		}
+		fmt.Printf("%-70s trusted=%v callers=%d e.g. %s\n", k, c.Trusted != "", len(callers[k]), shortKey(callers[k][0]))
 	}
 	return 0
 }
